@@ -134,7 +134,28 @@ def setFmt (k : Nat) (v : Tup) : Tup :=
   | (_ :: rest, bs) => (k :: rest, bs)
   | _ => v
 
-def std : Codecs := { enc := enc, dec := dec, setFmt := setFmt }
+/-- what a failing `SMB_STRING.Unmarshal` has assigned before it gives up: `s.BufferFormat = buffer[0]` first; in the
+    counted formats 0x01, 0x03, 0x05 with at least three bytes there also `s.Length`; the buffer is untouched.
+    (Found by the tie once WriteRequest, the one caller that drops this error, had its data in the data block.) -/
+def strDecFail (b : Bytes) (old : Tup) : Tup :=
+  match b, old with
+  | f :: rest, ([_, l], [buf]) =>
+    if f = 1 ∨ f = 3 ∨ f = 5 then
+      match rest with
+      | l0 :: l1 :: _ => ([f.toNat, l0.toNat + 256 * l1.toNat], [buf])
+      | _ => ([f.toNat, l], [buf])
+    else ([f.toNat, l], [buf])
+  | _, _ => old
+
+/-- partial effect of a failing nested decoder; modelled for `SMB_STRING` (the only type decoded by a caller that drops
+    the error where the decoder can fail — the other such call, RenameRequest's attributes through a two-byte window,
+    cannot: `C04.rename_request_unchecked_decode_total`); the fixed-size decoders check the length before they assign -/
+def decFail (typ : String) (b : Bytes) (old : Tup) : Tup :=
+  match typ with
+  | "SMB_STRING" => strDecFail b old
+  | _ => old
+
+def std : Codecs := { enc := enc, dec := dec, setFmt := setFmt, decFail := decFail }
 
 /-- the nested types whose decoder reads a prefix of its input and leaves the rest alone (all but
     `SMB_NMPIPE_STATUS`, which rejects trailing bytes — finding `nmpipe_trailing` —, `Dialects`, which
